@@ -3,7 +3,7 @@
    with the force path: AForce = Kill(FatalError(ErrForceStop)) + per-node ForceStop, ACut = an open
    message nacked on the cancelled context, AAbortSrc = the source ends without draining). *)
 From Verif Require Import Stop.Stop Stop.StopProofs Stop.ForceStop Stop.ForceStopProofs.
-From Verif Require Stop.Events Stop.Check Stop.CheckProofs Stop.GenStop Stop.GenStopProofs.
+From Verif Require Stop.Events Stop.Check Stop.CheckProofs Stop.GenStop Stop.GenStopProofs Stop.GenStopSim.
 
 Theorem C12_force_latch : forall l, count_start l = 1 -> In FStop l ->
   cancelled (frun l) = true /\ nil_called (frun l) = false.
@@ -110,6 +110,29 @@ Theorem C12_gen_status_after_force : forall e m s1 s2 l s3 s4, GenStopProofs.gre
   GenStop.evs s4 = Events.EStatus Events.StDegraded true :: GenStop.evs s3.
 Proof. exact GenStopProofs.gen_status_after_force. Qed.
 Print Assumptions C12_gen_status_after_force.
+
+(* (i), the simulation (GenStopSim.v), composed with (ii): every trace of the generative model - any
+   schedule including force stops at any instant, any number of destinations, both engines - is accepted,
+   hence satisfies the log clauses of Mon_C12: no ack for an unhandled record, out of order or to a
+   torn-down plugin; every status written after a force stop that returned nil is the demanded one *)
+Theorem C12_gen_trace_accepted : forall e m l s, GenStop.grun (GenStop.ginit e m) l = Some s ->
+  Check.accept (GenStopSim.cfgof e m) (GenStop.trace s) = true.
+Proof. exact GenStopSim.gen_trace_accepted. Qed.
+Print Assumptions C12_gen_trace_accepted.
+
+Theorem C12_gen_trace_acks_only_handled : forall e m l s, GenStop.grun (GenStop.ginit e m) l = Some s ->
+  let t := Check.track (GenStopSim.cfgof e m) (GenStop.trace s) in
+  Check.pack_unhandled t = false /\ Check.pack_disorder t = false /\ Check.pack_closed t = false.
+Proof. exact GenStopSim.gen_trace_acks_only_handled. Qed.
+Print Assumptions C12_gen_trace_acks_only_handled.
+
+Theorem C12_gen_trace_status_after_force : forall e m l s pre st f rest,
+  GenStop.grun (GenStop.ginit e m) l = Some s ->
+  GenStop.trace s = pre ++ Events.EStatus st f :: rest ->
+  Check.fnil (Check.track (GenStopSim.cfgof e m) pre) = true ->
+  Check.force_status_ok (Check.graceful (Check.track (GenStopSim.cfgof e m) pre)) st f = true.
+Proof. exact GenStopSim.gen_trace_status_after_force. Qed.
+Print Assumptions C12_gen_trace_status_after_force.
 
 Example C12_gen_trace_accepted_v2 :
   match GenStop.grun (GenStop.ginit false 1)
